@@ -4,17 +4,47 @@
 #include <memory>
 #include <string>
 
+#include "decls_table.h"
+
 extern "C" {
-int k_parse(const struct decl* d, int argc, const char* const* argv, struct parse_result* r);
-// parse argv1 then argv2 on ONE parser object; r1/r2 receive both outcomes
-int k_parse_twice(const struct decl* d, int argc1, const char* const* argv1, int argc2, const char* const* argv2,
-                  struct parse_result* r1, struct parse_result* r2);
-// arguments::get(int) / operator[] on a successful parse: 0 = returned (out filled), 1.. = exception class
-int k_positional_index(const struct decl* d, int argc, const char* const* argv, int index, int use_brackets,
-                       struct res_str* out);
-// option::as<int>() / multi_option as<int>(i) after a successful parse of "--<name> <text>"
-int k_parse_as_int(const struct decl* d, int argc, const char* const* argv, unsigned ent, unsigned idx, int* out);
+// Only scalars and byte pointers cross the C / C++ boundary (CBMC was measured to answer imprecisely when a struct written through
+// the generated struct type is read through the harness' own struct type).  Results are kept here and read through accessors.
+// slot: 0 = the parse of interest, 1 / 2 = first / second parse on one parser object (C14)
+int k_parse(unsigned decl, int argc, const char* const* argv);
+int k_parse_twice(unsigned decl, int argc1, const char* const* argv1, int argc2, const char* const* argv2);
+int k_positional_index(unsigned decl, int argc, const char* const* argv, int index, int use_brackets);
+int res_status(unsigned slot);
+unsigned res_npos(unsigned slot);
+int res_given(unsigned slot, unsigned ent);
+unsigned res_provided(unsigned slot, unsigned ent);
+unsigned res_present(unsigned slot, unsigned ent);
+unsigned res_count(unsigned slot, unsigned ent);
+// which: 0 = option value of ent, 1 + j = j-th multi-option value of ent, 100 + j = j-th positional, 200 = string handed out by k_positional_index
+unsigned res_str_len(unsigned slot, unsigned ent, unsigned which);
+unsigned res_str_byte(unsigned slot, unsigned ent, unsigned which, unsigned i);
 }
+
+static struct parse_result g_res[3];
+static struct res_str g_idx_str;
+
+static const struct res_str* pick(unsigned slot, unsigned ent, unsigned which)
+{
+    if (which == 200)
+        return &g_idx_str;
+    if (which >= 100)
+        return &g_res[slot].pos[which - 100];
+    if (which == 0)
+        return &g_res[slot].e[ent].value;
+    return &g_res[slot].e[ent].vals[which - 1];
+}
+int res_status(unsigned slot) { return g_res[slot].status; }
+unsigned res_npos(unsigned slot) { return g_res[slot].npos; }
+int res_given(unsigned slot, unsigned ent) { return g_res[slot].e[ent].given; }
+unsigned res_provided(unsigned slot, unsigned ent) { return g_res[slot].e[ent].provided; }
+unsigned res_present(unsigned slot, unsigned ent) { return g_res[slot].e[ent].present; }
+unsigned res_count(unsigned slot, unsigned ent) { return g_res[slot].e[ent].count; }
+unsigned res_str_len(unsigned slot, unsigned ent, unsigned which) { return pick(slot, ent, which)->len; }
+unsigned res_str_byte(unsigned slot, unsigned ent, unsigned which, unsigned i) { return static_cast<unsigned char>(pick(slot, ent, which)->s[i]); }
 
 namespace
 {
@@ -146,8 +176,10 @@ int parse_into(nitro::options::parser& p, const struct decl* d, int argc, const 
 }
 } // namespace
 
-int k_parse(const struct decl* d, int argc, const char* const* argv, struct parse_result* r)
+int k_parse(unsigned decl, int argc, const char* const* argv)
 {
+    const struct decl* d = &DECLS[decl];
+    struct parse_result* r = &g_res[0];
     try
     {
         nitro::options::parser p("app");
@@ -161,26 +193,26 @@ int k_parse(const struct decl* d, int argc, const char* const* argv, struct pars
     }
 }
 
-int k_parse_twice(const struct decl* d, int argc1, const char* const* argv1, int argc2, const char* const* argv2,
-                  struct parse_result* r1, struct parse_result* r2)
+int k_parse_twice(unsigned decl, int argc1, const char* const* argv1, int argc2, const char* const* argv2)
 {
+    const struct decl* d = &DECLS[decl];
     try
     {
         nitro::options::parser p("app");
         declare(p, d);
-        parse_into(p, d, argc1, argv1, r1);
-        return parse_into(p, d, argc2, argv2, r2);
+        parse_into(p, d, argc1, argv1, &g_res[1]);
+        return parse_into(p, d, argc2, argv2, &g_res[2]);
     }
     catch (...)
     {
-        r2->status = 6;
+        g_res[2].status = 6;
         return 6;
     }
 }
 
-int k_positional_index(const struct decl* d, int argc, const char* const* argv, int index, int use_brackets,
-                       struct res_str* out)
+int k_positional_index(unsigned decl, int argc, const char* const* argv, int index, int use_brackets)
 {
+    const struct decl* d = &DECLS[decl];
     try
     {
         nitro::options::parser p("app");
@@ -189,7 +221,7 @@ int k_positional_index(const struct decl* d, int argc, const char* const* argv, 
         try
         {
             const std::string& s = use_brackets ? a[index] : a.get(index);
-            put(out, s);
+            put(&g_idx_str, s);
             return 0;
         }
         catch (std::exception&)
@@ -200,25 +232,6 @@ int k_positional_index(const struct decl* d, int argc, const char* const* argv, 
         {
             return 2;
         }
-    }
-    catch (...)
-    {
-        return 6;
-    }
-}
-
-int k_parse_as_int(const struct decl* d, int argc, const char* const* argv, unsigned ent, unsigned idx, int* out)
-{
-    try
-    {
-        nitro::options::parser p("app");
-        declare(p, d);
-        auto a = p.parse(argc, argv);
-        if (d->e[ent].kind == K_OPTION)
-            *out = a.as<int>(d->e[ent].name);
-        else
-            *out = a.as<int>(d->e[ent].name, idx);
-        return 0;
     }
     catch (...)
     {
